@@ -8,6 +8,8 @@ R3  code->spec: seeded histories of New / Reset / Len / transform calls (valid a
     patterns and TLC accepts the log iff it is a behaviour of FourierObj (FourierObjTrace.tla).
 R3' code->spec: dsp/transform Hilbert histories in the same trace specification (plus the real-part predicate);
     dsp/window: weights as an uninterpreted function fixed at first occurrence (WindowTrace.tla).
+R2' spec->code: every weight of every window at every index of every length (odd and even) as an exact expression
+    over rational points (WindowExact.tla); all entry points in place on slices with junk beyond their length.
 R2  spec->code: index helpers (FftIndex.tla) and the defining sums wherever every trigonometric
     factor is rational (ExactDft.tla) - expected values are the integers TLC printed.
 """
@@ -83,6 +85,20 @@ def windows(ctx, b, bn, th):
     return [lambda a=a: one(*a) for a in WIN_SHARDS]
 
 
+def windows_exact(ctx, bins, builds, th):
+    """spec->code for dsp/window (WindowExact.tla): every weight as a rational combination of cos / sin / sinc / exp at
+    rational points, every length 1..NHi."""
+    # (ranges of about equal numbers of weights; each generator run stays below ~20 s in the quick tier)
+    ranges = [(1, 80), (81, 114), (115, 140), (141, 160)] if th else [(1, 34), (35, 48)]
+
+    def one(kinds, label, lo, hi):
+        cases = ctx.gen("dsp/WindowExact.tla", "dsp/WindowExact.cfg", name="R1+R2 gen exact windows %s n=%d..%d" % (label, lo, hi),
+                        subst=dict(NLO=lo, NHI=hi, KINDS=tlaset(kinds.split(",")), SEED=ctx.seed % 1000, EMIT="TRUE"), timeout=1500)
+        for bn, _ in builds:
+            ctx.replay(bins[bn], "dsp-winexact", cases, [], name="R2 replay exact windows %s n=%d..%d [%s]" % (label, lo, hi, bn))
+    return [lambda a=a, r=r: one(a[0], a[1], r[0], r[1]) for a in WIN_SHARDS for r in ranges]
+
+
 ALLK = ["C.coef", "C.seq", "FFT.coef", "FFT.seq", "DCT.t", "DST.t", "QW.cosc", "QW.coss", "QW.sinc", "QW.sins"]
 RADK = ["R2.coef", "R2.seq", "R4.coef", "R4.seq"]
 
@@ -153,6 +169,7 @@ def run(ctx):
     thunks += windows(ctx, bins["default"], "default", th)
     if th:
         thunks += windows(ctx, bins["bounds"], "bounds", th)
+    thunks += windows_exact(ctx, bins, builds, th)
 
     # ---- R1+R2: index helpers ----------------------------------------------
     def index():
@@ -173,13 +190,18 @@ def run(ctx):
         "dense inputs rely on the inversion theorems, which TLC checks only where the dense sum is itself computable "
         "(n <= 12 with rational angles)",
         "exact vectors are compared within (1024*n + 8*G^2)*2^-52*|x|_1, G = largest prime factor of n-1, n, n+1 (rounding behaviour of FFTPACK's general-radix pass, measured)",
+        "exact windows: the harness evaluates the printed expression sum coef/10^9 * F(num/den), F in cos(pi x), sin(pi x), "
+        "sin(pi x)/(pi x), exp, with Go's math package (trusted to a few ulps); tolerance 256*2^-52 absolute per unit of input "
+        "(largest error measured on the unchanged library: 3*2^-52)",
     ]
     return ctx.finish(
         rule="R3: one case = one successful transform call of a recorded history (incl. its mirror on a brand-new "
              "object); non-trivial = the same (kind, n, input) had already been answered in this history before the "
              "object was Reset or replaced in between; one trace = one 50-operation history of one object. "
              "R2 exact sums: one case = one call of a transform (one calling variant) on one TLC-printed integer "
-             "vector, all unmasked outputs compared; non-trivial = some expected output is non-zero. R2 index: one "
+             "vector, all unmasked outputs compared; non-trivial = some expected output is non-zero. R2 exact windows: one "
+             "case = one (window, parameter, length) with all its weights, 14 entry-point calls; non-trivial = length >= 2 "
+             "and not Rectangular. R2 index: one "
              "case = one helper's whole table for one n (or one must-panic call, or one Pad/Trim call).",
         exhaustive=False)
 
